@@ -373,7 +373,7 @@ func c20ClassifyExit(s *world.Snap, p world.Pos, err error) string {
 		return "reward-pool-short"
 	case short && D != nil && D.Sign() > 0 && D.Cmp(ratI(1)) < 0:
 		return "full-exit-below-one-delegator-share"
-	case short && D != nil && vt != nil && vt.Sign() > 0 && world.RatInt(p.Reported).Cmp(p.Value) > 0 && ratMul(ratQuo(D, vt), ratSub(world.RatInt(p.Reported), p.Value)).Cmp(ratQuo(ratI(1), ratI(100))) >= 0:
+	case short && D != nil && vt != nil && vt.Sign() > 0 && world.RatInt(p.Reported).Cmp(p.Value) > 0 && ratMul(ratQuo(D, vt), ratSub(world.RatInt(p.Reported), p.Value)).Cmp(ratQuo(ratI(1), ratI(100))) >= 0 && needsMoreWholeShares(p, D, vt):
 		return "reported-balance-rounded-up-beyond-share-window"
 	case s.Assets[p.Denom].TotalValidatorShares.IsZero() && s.Assets[p.Denom].TotalTokens.IsPositive():
 		return "asset-fully-slashed-total-without-shares"
